@@ -52,6 +52,7 @@ type fakeCF struct {
 	patches   []string
 	badAuth   bool
 	onPatch   func() // called (once) when a PATCH request arrives, before it is answered
+	omitEmpty bool   // record listings leave out empty members
 }
 
 func (f *fakeCF) handle(w http.ResponseWriter, req *http.Request) {
@@ -118,7 +119,17 @@ func (f *fakeCF) handle(w http.ResponseWriter, req *http.Request) {
 		hi := min(lo+per, len(z.Recs))
 		var res []map[string]any
 		for _, r := range z.Recs[lo:hi] {
-			res = append(res, map[string]any{"id": r.ID, "name": r.Name, "type": "HTTPS", "data": map[string]any{"priority": r.Priority, "target": r.Target, "value": r.Value}})
+			data := map[string]any{"priority": r.Priority, "target": r.Target, "value": r.Value}
+			if f.omitEmpty {
+				// an API that leaves out members that are empty / zero instead of writing "" / 0
+				if r.Value == "" {
+					delete(data, "value")
+				}
+				if r.Priority == 0 {
+					delete(data, "priority")
+				}
+			}
+			res = append(res, map[string]any{"id": r.ID, "name": r.Name, "type": "HTTPS", "data": data})
 		}
 		if res == nil {
 			res = []map[string]any{}
@@ -217,12 +228,17 @@ func genC20(env *core.Env, emit func(core.Case)) {
 			if k > 0 && r.IntN(25) == 0 {
 				name = fmt.Sprintf("h%d.example.org", k-1) // two records with one name
 			}
-			z1.Recs = append(z1.Recs, &cfRec{ID: fmt.Sprintf("r%d", k), Name: name, Value: randParams(r, ne), Priority: 1 + r.IntN(3), Target: "."})
+			val := randParams(r, ne)
+			if r.IntN(6) == 0 {
+				val = "" // a record without any parameter yet
+			}
+			z1.Recs = append(z1.Recs, &cfRec{ID: fmt.Sprintf("r%d", k), Name: name, Value: val, Priority: 1 + r.IntN(3), Target: "."})
 		}
 		z2 := &cfZoneT{ID: "zid2", Name: "example.net", Recs: []*cfRec{{ID: "n0", Name: "example.net", Value: randParams(r, 1), Priority: 1, Target: "."}}}
 		fake.mu.Lock()
 		fake.zones = []*cfZoneT{z1, z2}
 		fake.badAuth = false
+		fake.omitEmpty = i%2 == 1
 		fake.mu.Unlock()
 		pubr := publish.NewCloudflarePublisher("test-token")
 		publish.VerifSetBaseURL(pubr, *u)
